@@ -251,6 +251,20 @@ class Autn(MilStream):
                 for pos, mask in cor:
                     what = "sqn" if pos < 6 else ("amf" if pos < 8 else "mac")
                     cs.append(dict(base, autn=flip(autn, pos, mask).hex(), kind="corrupt-%s %s" % (what, "fresh" if net > ue else "stale")))
+                # corruptions of several MAC-A octets at once whose differences cancel under xor / sum to zero: "if and
+                # only if MAC-A is exactly f1" leaves no room for a comparison that folds the differences
+                fresh = "fresh" if net > ue else "stale"
+                i, j = 8 + rng.below(8), 8 + rng.below(8)
+                if i != j:
+                    m = rng.range(1, 255)
+                    cs.append(dict(base, autn=flip(flip(autn, i, m), j, m).hex(), kind="corrupt-mac-pair-same-mask " + fresh))
+                    a = bytearray(autn); a[i], a[j] = a[j], a[i]
+                    if bytes(a) != autn:
+                        cs.append(dict(base, autn=bytes(a).hex(), kind="corrupt-mac-swapped-octets " + fresh))
+                    a = bytearray(autn); a[i] = (a[i] + 1) & 0xff; a[j] = (a[j] - 1) & 0xff
+                    cs.append(dict(base, autn=bytes(a).hex(), kind="corrupt-mac-plus-minus " + fresh))
+                cs.append(dict(base, autn=(autn[:8] + bytes(x ^ 0xff for x in autn[8:])).hex(), kind="corrupt-mac-inverted " + fresh))
+                cs.append(dict(base, autn=(autn[:8] + autn[8:][::-1]).hex(), kind="corrupt-mac-reversed " + fresh))
         return cs
 
 
